@@ -8,6 +8,10 @@ Check C09_remove : forall p buf cap xs pad rest i, Rep p buf cap xs pad rest -> 
 Check C09_set : forall p buf cap xs pad rest i item, Rep p buf cap xs pad rest -> elem_ok p item -> if i <? len xs then exists a x b buf', xs = a ++ x :: b /\ len a = i /\ set_elem p buf i item = (buf', Ok tt) /\ Rep p buf' cap (a ++ item :: b) pad rest else exists e, set_elem p buf i item = (buf, Err e).
 Check C09_sort : forall p buf cap xs pad rest, Rep p buf cap xs pad rest -> exists buf', sort p buf = (buf', Ok tt) /\ Rep p buf' cap (sort_elems xs) pad rest.
 Check C09_sort_permutes : forall l, Permutation.Permutation l (sort_elems l).
+Check C09_sort_by_key : forall leb p buf cap xs pad rest, Rep p buf cap xs pad rest -> exists buf', sort_with leb p buf = (buf', Ok tt) /\ Rep p buf' cap (sort_by leb xs) pad rest.
+Check C09_sort_by_key_permutes : forall leb l, Permutation.Permutation l (sort_by leb l).
+Check C09_sort_by_key_stable : forall (key : list byte -> N) l k, filter (fun z => key z =? k) (sort_by (fun a b => key a <=? key b) l) = filter (fun z => key z =? k) l.
+Check C09_sort_by_key_sorted : forall (key : list byte -> N) l, Sorted.StronglySorted (fun a b => key a <= key b) (sort_by (fun a b => key a <=? key b) l).
 Check C09_init : forall p buf, wf_params p -> layout_ok p buf -> capacity_of p buf < USIZE_LIMIT -> exists buf' pad rest, init p buf = (buf', Ok (0, capacity_of p buf)) /\ Rep p buf' (capacity_of p buf) [] pad rest /\ length buf' = length buf.
 Check C09_size_of : forall p n s buf, size_of p n = Ok s -> szT p <> 0 -> len buf = s -> capacity_of p buf = n /\ data_start p <= len buf /\ data_len p buf mod szT p = 0.
 Check C09_size_formula : forall p n s, size_of p n = Ok s -> s = szL p + header_padding p + szT p * n.
